@@ -375,18 +375,17 @@ class YP(object):
     def retract(self, term):
         '''retract(Term) removes all dynamic facts matching Term and backtracks over identical clauses.'''
         name, args = self._fact_name_and_args(term, 'retract/1')
-        remaining_clauses = self._find_predicates_or_none(name, len(args))[:]
-        i = 0
-        while i < len(remaining_clauses):
-            clause = remaining_clauses[i]
-            match = False
+        # the clause lists in the store are never changed in place, so this is
+        # the predicate as it was when retract was called
+        for clause in self._find_predicates_or_none(name, len(args)):
+            current_clauses = self._find_predicates_or_none(name, len(args))
+            if not any(c is clause for c in current_clauses):
+                # removed in the meantime
+                continue
             for cut in clause.match(args):
-                match = True
-                del remaining_clauses[i]
+                remaining_clauses = [c for c in current_clauses if c is not clause]
                 self._update_predicate(self.atom(name), len(args), remaining_clauses)
                 yield False
-            if not match:
-                i += 1
 
     def retractall(self, term):
         '''retractall(Term) removes all dynamic facts matching Term, without backtracking over identical clauses.'''
@@ -522,10 +521,12 @@ class YP(object):
         except YPException as e:
             clauses = []
         answer = Answer([get_value(v) for v in values])
+        # store a new list: goals that are enumerating this predicate keep
+        # working on the facts as they were when the goal started
         if append:
-            clauses.append(answer)
+            clauses = clauses + [answer]
         else:
-            clauses.insert(0, answer)
+            clauses = [answer] + clauses
         self._update_predicate(name, len(values), clauses)
 
     def query(self, name, args):
